@@ -244,6 +244,32 @@ def run(ctx):
                 key = 'worst_conversion_error_ppm(shard %d)' % ctx.shard
                 if not dtag:
                     ctx.notes[key] = max(ctx.notes.get(key, 0), int(rel.max() * 1e6))
+        # 5b. several channels converted in ONE call, requested in another order than they were calibrated in
+        if C >= 2 and part_ok and good:
+            spans = {}
+            for c in range(C):
+                sr = np.asarray(out.selection['rfi'][c], dtype=float)
+                if len(sr) >= 3:
+                    spans[c] = np.geomspace(sr.min(), sr.max(), 60)
+            if len(spans) >= 2:
+                order = [int(x) for x in rng.permutation(sorted(spans))]
+                if order == sorted(order):
+                    order = order[::-1]
+                t = s[:60].astype(np.float64)
+                for c, x in spans.items():
+                    t[:, c] = x
+                req = [names[c] if rng.random() < 0.5 else c for c in order]
+                o5 = core.attempt(out.transform_fxn, t, req)
+                ctx.counters['chk:accuracy'] += 1
+                if ctx.check(not o5.raised, 'multi-channel-conversion-raised' + dtag, cid, request=req,
+                             exc=core.exc_str(o5.exc) if o5.raised else None):
+                    worst = 0.0
+                    for c in order:
+                        m_, b_, _a = bd['laws'][c]
+                        y = np.asarray(o5.value)[:, c]
+                        worst = max(worst, float(np.max(np.abs(y / (np.exp(b_) * spans[c] ** m_) - 1))))
+                    ctx.check(worst <= 0.10, 'conversion-off-by-more-than-10pct:multi-channel-request' + dtag, cid,
+                              request=req, worst=worst, **desc)
         # 6. metamorphic: same seed twice identical; permuted events: same results modulo the permutation
         if (cid[1] % 3 == 0 or ctx.tier == 'thorough') and part_ok:
             with np.errstate(all='ignore'):
